@@ -42,6 +42,7 @@ import (
 	"os"
 	"path/filepath"
 	"sort"
+	"strconv"
 	"strings"
 )
 
@@ -225,6 +226,9 @@ var targets = []target{
 	{pkg: "gws", fn: "deflater.Compress", lean: "deflater_Compress_stripTail",
 		from: "if n := dst.Len(); n >= 4", to: "return nil",
 		doc: "the removal of the sync-flush trailer 00 00 ff ff from the compressor's output (RFC 7692 7.2.1)"},
+	{pkg: "gws", fn: "ConcurrentMap.GetSharding", lean: "ConcurrentMap_shardIndex",
+		from: "var index =", to: "return c.shardings", liveOut: []string{"index"},
+		doc: "the shard a key belongs to, from its hash (an input) and the number of shards"},
 	{pkg: "gws", fn: "PermessageDeflate.setThreshold", lean: "PermessageDeflate_setThreshold"},
 	{pkg: "gws", fn: "initServerOption", lean: "initServerOption_limits",
 		from: "if c.ReadMaxPayloadSize <= 0", to: "if c.Authorize == nil",
@@ -239,6 +243,19 @@ var targets = []target{
 	{pkg: "gws", fn: "initClientOption", lean: "initClientOption_pd",
 		from: "if c.PermessageDeflate.Enabled {", to: "return c",
 		doc: "the normalisation of the client's compression settings"},
+	{pkg: "internal", fn: "InCollection", lean: "internal_InCollection"},
+	{pkg: "internal", fn: "GetIntersectionElem", lean: "internal_GetIntersectionElem"},
+	{pkg: "internal", fn: "HttpHeaderContainsToken", lean: "internal_HttpHeaderContainsToken"},
+	{pkg: "gws", fn: "responseWriter.WithHeader", lean: "responseWriter_WithHeader"},
+	{pkg: "gws", fn: "responseWriter.WithSubProtocol", lean: "responseWriter_WithSubProtocol"},
+	{pkg: "gws", fn: "Upgrader.doUpgradeFromConn", lean: "Upgrader_requestChecks",
+		from: "if r.Method != http.MethodGet", to: "var rw =",
+		doc: "the checks of the upgrade request (method, version, Connection token, Upgrade) that follow the authorisation callback"},
+	{pkg: "gws", fn: "Upgrader.doUpgradeFromConn", lean: "Upgrader_keyAndAccept",
+		from: "var websocketKey =", to: "rw.WithSubProtocol",
+		doc: "the Sec-WebSocket-Key check and the Sec-WebSocket-Accept line of the response"},
+	{pkg: "gws", fn: "connector.checkHeaders", lean: "connector_checkHeaders"},
+	{pkg: "gws", fn: "connector.getSubProtocol", lean: "connector_getSubProtocol"},
 	{pkg: "internal", fn: "CheckEncoding", lean: "internal_CheckEncoding"},
 	{pkg: "internal", fn: "StatusCode.Bytes", lean: "StatusCode_Bytes"},
 	{pkg: "internal", fn: "StatusCode.Uint16", lean: "StatusCode_Uint16"},
@@ -290,10 +307,19 @@ func (tr *translator) leanType(t types.Type) (string, bool) {
 			return "UInt64", true
 		case types.Int, types.UntypedInt, types.Int32, types.Int64:
 			return "Int", true // signed integers are unbounded here: the targets never rely on their overflow
+		case types.String, types.UntypedString:
+			return "Hs.Str", true // a Go string is its bytes
 		}
 	case *types.Slice:
 		if b, ok := u.Elem().Underlying().(*types.Basic); ok && b.Kind() == types.Uint8 {
 			return "(List UInt8)", true
+		}
+		if b, ok := u.Elem().Underlying().(*types.Basic); ok && b.Kind() == types.String {
+			return "(List Hs.Str)", true
+		}
+	case *types.Map:
+		if t.String() == "net/http.Header" {
+			return "Hs.Header", true
 		}
 	case *types.Array:
 		if b, ok := u.Elem().Underlying().(*types.Basic); ok && b.Kind() == types.Uint8 {
@@ -471,6 +497,8 @@ func (f *fn) constant(tv types.TypeAndValue, n ast.Node) string {
 			return "true"
 		}
 		return "false"
+	case constant.String:
+		return fmt.Sprintf("(Sha1.asc %s)", strconvQuote(constant.StringVal(tv.Value)))
 	case constant.Int:
 		s := tv.Value.ExactString()
 		if strings.HasPrefix(s, "-") {
@@ -480,6 +508,31 @@ func (f *fn) constant(tv types.TypeAndValue, n ast.Node) string {
 	}
 	f.bad(n, "constant kind")
 	return ""
+}
+
+func strconvQuote(s string) string {
+	var sb strings.Builder
+	sb.WriteByte('"')
+	for _, r := range s {
+		switch {
+		case r == '"':
+			sb.WriteString("\\\"")
+		case r == '\\':
+			sb.WriteString("\\\\")
+		case r == '\r':
+			sb.WriteString("\\r")
+		case r == '\n':
+			sb.WriteString("\\n")
+		case r == '\t':
+			sb.WriteString("\\t")
+		case r >= 128 || r < 32:
+			fail("string constant %q outside the ASCII the translation handles", s)
+		default:
+			sb.WriteRune(r)
+		}
+	}
+	sb.WriteByte('"')
+	return sb.String()
 }
 
 func bits(lt string) int {
@@ -575,6 +628,9 @@ func (f *fn) expr(e ast.Expr) string {
 	case *ast.SelectorExpr:
 		if path, ok := f.pathOf(v); ok {
 			return f.usePath(path, tv.Type, e)
+		}
+		if str, ok := f.tr.pairField(v); ok {
+			return fmt.Sprintf("(Sha1.asc %s)", strconvQuote(str))
 		}
 		f.bad(e, "selector")
 	case *ast.IndexExpr:
@@ -761,6 +817,49 @@ func (f *fn) binary(v *ast.BinaryExpr) string {
 	return ""
 }
 
+// pairField: `internal.Connection.Key` — a field of a package-level `Pair{"…", "…"}` value of the internal package
+// (these header names are never assigned: internal/others.go declares them once)
+func (tr *translator) pairField(v *ast.SelectorExpr) (string, bool) {
+	inner, ok := v.X.(*ast.SelectorExpr)
+	var name string
+	if ok {
+		if id, ok := inner.X.(*ast.Ident); !ok || id.Name != "internal" {
+			return "", false
+		}
+		name = inner.Sel.Name
+	} else if id, ok := v.X.(*ast.Ident); ok {
+		name = id.Name
+	} else {
+		return "", false
+	}
+	for _, file := range tr.pkgs["internal"].files {
+		for _, d := range file.Decls {
+			gd, ok := d.(*ast.GenDecl)
+			if !ok || gd.Tok != token.VAR {
+				continue
+			}
+			for _, sp := range gd.Specs {
+				vs := sp.(*ast.ValueSpec)
+				for i, id := range vs.Names {
+					if id.Name != name || i >= len(vs.Values) {
+						continue
+					}
+					cl, ok := vs.Values[i].(*ast.CompositeLit)
+					if !ok || len(cl.Elts) != 2 {
+						return "", false
+					}
+					idx := map[string]int{"Key": 0, "Val": 1}[v.Sel.Name]
+					if lit, ok := cl.Elts[idx].(*ast.BasicLit); ok && lit.Kind == token.STRING {
+						s, err := strconv.Unquote(lit.Value)
+						return s, err == nil
+					}
+				}
+			}
+		}
+	}
+	return "", false
+}
+
 func funcKey(fo *types.Func) string {
 	sig := fo.Type().(*types.Signature)
 	name := fo.Name()
@@ -858,6 +957,30 @@ func (f *fn) call(c *ast.CallExpr) string {
 	}
 	fname := text[:min(len(text), strings.Index(text+"(", "("))]
 	switch {
+	case fname == "strings.Join" && strings.Join(strings.Fields(f.src(c.Args[1])), "") == `","`:
+		return fmt.Sprintf("(Hs.joinComma %s)", f.expr(c.Args[0]))
+	case fname == "errors.New":
+		if lit, ok := c.Args[0].(*ast.BasicLit); ok {
+			return fmt.Sprintf("(some (GoErr.named %s))", lit.Value)
+		}
+	case fname == "strings.EqualFold":
+		return fmt.Sprintf("(Hs.foldEq %s %s)", f.expr(c.Args[0]), f.expr(c.Args[1]))
+	case (fname == "internal.Split" || fname == "Split") && len(c.Args) == 2 && strings.Join(strings.Fields(f.src(c.Args[1])), "") == `","`:
+		return fmt.Sprintf("(Hs.split %s)", f.expr(c.Args[0]))
+	case fname == "internal.ComputeAcceptKey":
+		return fmt.Sprintf("(Hs.acceptKey %s)", f.expr(c.Args[0]))
+	case fname == "fmt.Errorf": // only the identity of the error matters: it is named by its format string
+		if lit, ok := c.Args[0].(*ast.BasicLit); ok {
+			name, _ := strconv.Unquote(lit.Value)
+			for _, a := range c.Args[1:] {
+				name += "|" + strings.Join(strings.Fields(f.src(a)), "")
+			}
+			return fmt.Sprintf("(some (GoErr.named %q))", name)
+		}
+	case strings.HasSuffix(fname, ".Header.Get") || strings.HasSuffix(fname, "Header.Get"):
+		return fmt.Sprintf("(Hs.get %s %s)", f.expr(c.Fun.(*ast.SelectorExpr).X), f.expr(c.Args[0]))
+	case strings.HasSuffix(fname, ".Header.Values") || strings.HasSuffix(fname, "Header.Values"):
+		return fmt.Sprintf("(Hs.vals %s %s)", f.expr(c.Fun.(*ast.SelectorExpr).X), f.expr(c.Args[0]))
 	case fname == "internal.NewError": // an *internal.Error: only its status code matters to the caller (emitError)
 		return fmt.Sprintf("(some (GoErr.coded %s))", f.expr(c.Args[0]))
 	case fname == "binaryPool.Get":
@@ -1129,7 +1252,7 @@ func (f *fn) assigned(n ast.Node) []string {
 					if sel, ok := c.Fun.(*ast.SelectorExpr); ok {
 						if rt := f.typeOf(sel.X); rt != nil && isBuffer(rt) {
 							switch sel.Sel.Name {
-							case "Write", "Reset", "Next", "Truncate":
+							case "Write", "WriteString", "Reset", "Next", "Truncate":
 								note(sel.X)
 							}
 						}
@@ -1234,9 +1357,6 @@ func (f *fn) block(list []ast.Stmt, k cont) string {
 	case *ast.BlockStmt:
 		return f.block(append(append([]ast.Stmt{}, st.List...), rest...), k)
 	case *ast.ReturnStmt:
-		if f.noReturn {
-			f.bad(s, "return of a value outside the fragment")
-		}
 		var vals []string
 		if len(st.Results) == 0 {
 			for _, n := range f.named {
@@ -1443,7 +1563,7 @@ func (f *fn) block(list []ast.Stmt, k cont) string {
 				b := f.lvalueName(sel.X)
 				var line string
 				switch sel.Sel.Name {
-				case "Write":
+				case "Write", "WriteString":
 					line = fmt.Sprintf("let %s := %s ++ %s", b, b, f.expr(c.Args[0]))
 				case "Reset":
 					line = fmt.Sprintf("let %s : List UInt8 := []", b)
@@ -1479,6 +1599,37 @@ func (f *fn) block(list []ast.Stmt, k cont) string {
 		return f.ifStmt(st, next)
 	case *ast.SwitchStmt:
 		return f.block([]ast.Stmt{f.desugarSwitch(st)}, next)
+	case *ast.RangeStmt:
+		// `for _, x := range L { body }` where the body only returns early (assigns nothing outside): the first iteration
+		// that returns decides, otherwise what follows the loop — a right fold with the rest of the function as its seed
+		if st.Key != nil {
+			if id, ok := st.Key.(*ast.Ident); !ok || id.Name != "_" {
+				f.bad(s, "range with an index variable")
+			}
+		}
+		xv, ok := st.Value.(*ast.Ident)
+		if !ok || st.Tok != token.DEFINE {
+			f.bad(s, "range loop form")
+		}
+		if len(f.assigned(st.Body)) != 0 {
+			f.bad(s, "range loop that assigns outer variables")
+		}
+		bad := false
+		ast.Inspect(st.Body, func(n ast.Node) bool {
+			if b, ok := n.(*ast.BranchStmt); ok && (b.Tok == token.BREAK || b.Tok == token.GOTO) {
+				bad = true
+			}
+			return true
+		})
+		if bad {
+			f.bad(s, "break in a range loop")
+		}
+		coll := f.expr(st.X)
+		f.flush(&sb)
+		f.locals[xv.Name] = true
+		body := f.block(st.Body.List, func() string { return "acc'" })
+		fmt.Fprintf(&sb, "List.foldr (fun %s acc' =>\n%s) (\n%s) %s", leanIdent(xv.Name), indent(body), indent(next()), coll)
+		return sb.String()
 	case *ast.ForStmt:
 		// counted loop `for i := 0; i < N; i++ { body }`: body without return/break/continue, not assigning i or the
 		// variables of N: a left fold over 0..N-1 of the assigned variables
@@ -1501,6 +1652,7 @@ func (f *fn) block(list []ast.Stmt, k cont) string {
 			case *ast.ReturnStmt, *ast.BranchStmt, *ast.ForStmt, *ast.RangeStmt:
 				bad = true
 			}
+			_ = n
 			return true
 		})
 		vars := f.assigned(st.Body)
@@ -1589,6 +1741,12 @@ func (f *fn) tupleCall(st *ast.AssignStmt) (string, bool) {
 func (f *fn) resultValue(r ast.Expr, lt string) string {
 	if id, ok := r.(*ast.Ident); ok && id.Name == "nil" && lt == "(List UInt8)" {
 		return "([] : List UInt8)"
+	}
+	if lt == "Unit" {
+		if id, ok := r.(*ast.Ident); ok && id.Name == "nil" {
+			return "()"
+		}
+		f.bad(r, "return of a value outside the fragment")
 	}
 	v := f.expr(r)
 	if lt == "(Option GoErr)" && isStatusCode(f.typeOf(r)) {
@@ -1901,8 +2059,7 @@ func (tr *translator) translate(key string) *result {
 			if t.from == "" {
 				fail("%s: result of unsupported type %s", key, v.Type())
 			}
-			lt = "Unit" // a segment of a function whose results are outside the fragment: it must not contain a return
-			f.noReturn = true
+			lt = "Unit" // a result outside the fragment: a segment may only return nil in this position
 		}
 		f.retTypes = append(f.retTypes, lt)
 		if v.Name() != "" {
@@ -2144,7 +2301,7 @@ func main() {
 		tr.translate(k)
 	}
 	var sb strings.Builder
-	sb.WriteString("import Gws.Trans.Prelude\n/-! GENERATED by tools/gotrans from /repo's current sources on every check run. Do not edit.\n\nEach definition is the translation of the Go function (or statement segment) named in its doc comment. -/\n\nset_option linter.unusedVariables false\n\nnamespace Trans\n\n")
+	sb.WriteString("import Gws.Trans.Prelude\nimport Gws.Model.Handshake\n/-! GENERATED by tools/gotrans from /repo's current sources on every check run. Do not edit.\n\nEach definition is the translation of the Go function (or statement segment) named in its doc comment. -/\n\nset_option linter.unusedVariables false\n\nnamespace Trans\n\n")
 	for _, k := range tr.order {
 		r := tr.done[k]
 		doc := r.t.pkg + "." + r.t.fn
